@@ -131,6 +131,25 @@ func runC12(c *Ctx) {
 		puts := c.Calls(enc.SSA, Call("littleEndian).PutUint64", Any(), Any(), Op("builtin", "len", Op("param", payloadP))))
 		okNonce = okNonce && len(puts) == 1
 	}
+	if !okNonce {
+		// the same through sha256.Sum256 over the joined pieces: sum := Sum256(Concat(prefix, length, payload, passphrase)); sum[:nonceLen]
+		if m, isSl := Match(Op("slice", "", Bind("d"), Any(), Const(nonceLen)), nonce); isSl && m["d"].Op == "alloc" {
+			whole := &X{Op: "slice", Args: []*X{m["d"], {Op: "nil"}, {Op: "nil"}, {Op: "nil"}}, V: nonce.V}
+			if ps := sha256Pieces(c, whole); len(ps) == 4 {
+				_, a := Match(Op("global", "dhash.noncePrefix"), ps[0])
+				_, l1 := Match(Call("littleEndian).AppendUint64", Any(), Op("nil", ""), Op("builtin", "len", Op("param", payloadP))), ps[1])
+				if !l1 {
+					l1 = strip(ps[1]) != nil && strip(ps[1]).Op == "call" && nameMatches(strip(ps[1]).Name, "littleEndian).AppendUint64") && strip(ps[1]).Contains(func(y *X) bool {
+						_, m := Match(Op("builtin", "len", Op("param", payloadP)), y)
+						return m
+					})
+				}
+				_, pl := Match(Op("param", payloadP), ps[2])
+				_, pp := Match(Op("param", passP), ps[3])
+				okNonce = a && l1 && pl && pp
+			}
+		}
+	}
 	c.Check(okNonce, "C12.D2-deterministic", enc.Name+" › nonce", seal.In.Pos(), "nonce = SHA-256(nonce prefix, len(payload), payload, passphrase)[:nonceLen]", "nonce is not derived from exactly (prefix, payload length, payload, passphrase): equal inputs can encrypt differently, or different inputs share a nonce")
 	_, okRet := Match(Is(nonce), firstRet(c, enc, 0))
 	c.Check(okRet, "C12.D2-deterministic", enc.Name+" › returns the nonce used", enc.SSA.Pos(), "the nonce returned is the one given to Seal", "returned nonce differs from the one used")
@@ -421,6 +440,20 @@ func sha256PiecesD(c *Ctx, x *X, env map[ssa.Value]*X, depth int) []*X {
 				return nil
 			}
 			return append(head, y.Args[1])
+		}
+		// slices.Concat(a, b, …): the pieces in order
+		if y.Op == "call" && strings.HasPrefix(y.Name, "slices.Concat[") && len(y.Args) == 1 {
+			if es := variadicElems(c, y.Args[0]); len(es) > 0 {
+				var out []*X
+				for _, e := range es {
+					sub := flat(e)
+					if sub == nil {
+						return nil
+					}
+					out = append(out, sub...)
+				}
+				return out
+			}
 		}
 		// scratch[:0]: the empty head of an append chain (longer input spills to the heap)
 		if y.Op == "slice" && len(y.Args) == 4 && y.Args[0].Op == "alloc" && y.Args[2] != nil && y.Args[2].Op == "const" && y.Args[2].Name == "0" {
@@ -777,6 +810,62 @@ func c12ValueKey(c *Ctx) {
 		c.Check(always, "C12.D6-value-key", sm.Name+" › hashes every input", sm.SSA.Pos(), "every return is the encoded second hash", "some inputs are returned without being hashed: their 'second hash' equals the original multihash, so the reader-privacy lookup reveals it")
 	}
 	c.Floor("C12.D6-value-key", 5)
+	// the salts are appended onto, so they must have no room to spare: append(salt, x...) copies only when the salt's
+	// capacity is its length — a salt built with extra capacity makes every caller write its input into the one
+	// shared backing array behind the salt, and concurrent callers hash each other's bytes
+	{
+		heads := map[*ssa.Global]bool{}
+		for _, f := range c.Funcs(dhashPkg) {
+			instrs(f.SSA, func(in ssa.Instruction) {
+				call, ok := in.(*ssa.Call)
+				if !ok {
+					return
+				}
+				if b, isB := call.Call.Value.(*ssa.Builtin); !isB || b.Name() != "append" || len(call.Call.Args) != 2 {
+					return
+				}
+				if ld, isLoad := call.Call.Args[0].(*ssa.UnOp); isLoad {
+					if g, isG := ld.X.(*ssa.Global); isG {
+						heads[g] = true
+					}
+				}
+			})
+		}
+		nSalt := 0
+		if p := c.pkg(dhashPkg); p != nil {
+			if initFn := c.SSAPkgs[p.PkgPath].Func("init"); initFn != nil {
+				instrs(initFn, func(in ssa.Instruction) {
+					st, ok := in.(*ssa.Store)
+					if !ok {
+						return
+					}
+					g, isG := st.Addr.(*ssa.Global)
+					if !isG {
+						return
+					}
+					if sl, isSl := deref(g.Type()).Underlying().(*types.Slice); !isSl || !types.Identical(sl.Elem(), types.Typ[types.Byte]) {
+						return
+					}
+					nSalt++
+					if !heads[g] {
+						c.OK("C12.D2-salt-has-no-spare-capacity", "dhash."+g.Name(), st.Pos(), "never the head of an append: inputs are joined into fresh slices")
+						return
+					}
+					exact := false
+					if cv, isConv := st.Val.(*ssa.Convert); isConv {
+						if _, fromConst := cv.X.(*ssa.Const); fromConst {
+							exact = true // []byte("…"): capacity = length
+						}
+					}
+					c.Check(exact, "C12.D2-salt-has-no-spare-capacity", "dhash."+g.Name(), st.Pos(), "the salt is the []byte conversion of a constant (capacity = length): appending to it always copies", "a salt that callers append to is built with a capacity of its own choosing: with room to spare, append(salt, x...) writes x into the shared array instead of a copy, and concurrent calls corrupt each other's input")
+				})
+			}
+		}
+		if nSalt == 0 {
+			c.Unk("C12.D2-salt-has-no-spare-capacity", "dhash › salts", token.NoPos, "no package-level salt that is appended to was found")
+		}
+		c.Floor("C12.D2-salt-has-no-spare-capacity", 2)
+	}
 }
 
 // findClientPkgOf: module-relative path of the package a function belongs to.
